@@ -359,7 +359,9 @@ def grammar_operator_tokens() -> List[str]:
 
 
 # ground instance templates per operator token: Boolean s-expressions over literals
-I, S = ["(- 7)", "(- 1)", "0", "1", "2", "7"], ['""', '"a"', '"ab"', '"abc"', '"12"', '"-5"', '"a\\u{a}"', '"\\u{e9}"', '"\\u{100}x"']
+I, S = ["(- 7)", "(- 1)", "0", "1", "2", "7"], ['""', '"a"', '"ab"', '"abc"', '"12"', '"-5"', '"a\\u{a}"', '"\\u{e9}"', '"\\u{100}x"',
+                                                 # a backslash and a double quote (SMT-LIB 2.6: the backslash is an ordinary character, "" is the quote)
+                                                 '"a\\b"', '"a""b"']
 RX = ['(str.to_re "ab")', '(re.range "a" "c")', '(re.* (str.to_re "a"))', 're.allchar', 're.all', 're.none']
 
 
@@ -409,7 +411,8 @@ OP_TEMPLATES: Dict[str, Any] = {
     "re.diff": lambda: ["(str.in_re %s (re.diff %s %s))" % p for p in _prod(S[:5], RX[:4], RX[:4])],
     "re.opt": lambda: ["(str.in_re %s (re.opt %s))" % p for p in _prod(S[:5], RX)],
     "re.range": lambda: ["(str.in_re %s (re.range %s %s))" % p for p in _prod(S[:4], ['"a"', '"0"', '"]"'], ['"c"', '"9"', '"a"'])],
-    "re.loop": lambda: ["(str.in_re %s ((_ re.loop %s %s) %s))" % p for p in _prod(S[:5], ["0", "1", "2"], ["1", "2", "3"], RX[:3])]
+    "re.loop": lambda: ["(str.in_re %s ((_ re.loop %s %s) %s))" % p for p in _prod(S[:5], ["0", "1", "2"], ["0", "1", "2", "3"], RX[:3])]
+    + ["(str.in_re %s (re.loop %s 0 0))" % p for p in _prod(S[:3], RX[:2])]
     + ["(str.in_re %s (re.loop %s 1 2))" % p for p in _prod(S[:3], RX[:2])],
     "str.is_digit": lambda: ["(str.is_digit %s)" % p for p in S + ['"7"']],
     "str.to_code": lambda: ["(= (str.to_code %s) %s)" % p for p in _prod(S, ["97", "(- 1)", "233"])],
@@ -417,3 +420,26 @@ OP_TEMPLATES: Dict[str, Any] = {
     "str.to.int": lambda: ["(= (str.to.int %s) %s)" % p for p in _prod(['"12"', '"007"', '"0"'], ["12", "7", "0", "(- 1)"])],
     "str.from_int": lambda: ["(= (str.from_int %s) %s)" % p for p in _prod(I, ['"7"', '""', '"-7"', '"0"'])],
 }
+
+# every string operator once more with a backslash / double-quote string as its FIRST literal: that literal is lifted into
+# a tree variable, so its characters travel through the instantiation code of all three call sites (fast path or Z3 fallback)
+_SPECIAL = ['"a\\b"', '"a""b"', '"\\"', '"\\\\"']
+_SPECIAL_TEMPLATES = {
+    "str.indexof": ['(= (str.indexof %s "b" 0) 2)', '(= (str.indexof %s "b" 0) 3)', '(= (str.indexof %s "b" 0) (- 1))'],
+    "str.replace": ['(= (str.replace %s "b" "c") "a\\c")', '(= (str.len (str.replace %s "a" "")) 2)'],
+    "str.replace_all": ['(= (str.len (str.replace_all %s "a" "")) 2)'],
+    "str.suffixof": ['(str.suffixof "b" %s)', '(str.suffixof "\\b" %s)'],
+    "str.prefixof": ['(str.prefixof %s "a\\bc")', '(str.prefixof %s "a""bc")'],
+    "str.contains": ['(str.contains %s "\\")', '(str.contains %s """")'],
+    "str.++": ['(= (str.len (str.++ %s "x")) 4)', '(= (str.len (str.++ %s "x")) 5)'],
+    "str.<=": ['(str.<= %s "a\\c")', '(str.<= %s "a")'],
+    "str.at": ['(= (str.at %s 1) "\\")', '(= (str.at %s 1) """")'],
+    "str.substr": ['(= (str.len (str.substr %s 0 5)) 3)', '(= (str.len (str.substr %s 1 5)) 2)'],
+    "str.len": ['(= (str.len %s) 3)', '(= (str.len %s) 4)', '(= (str.len %s) 1)', '(= (str.len %s) 2)'],
+    "div": ['(= (div (str.len %s) 2) 1)', '(= (div (str.len %s) 2) 2)', '(= (div (str.len %s) 2) 0)'],
+    "str.to_code": ['(= (str.to_code (str.at %s 1)) 92)', '(= (str.to_code (str.at %s 1)) 34)'],
+    "=": ['(= %s "a\\b")', '(= %s "a""b")', '(= %s "\\")'],
+}
+for _op, _ts in _SPECIAL_TEMPLATES.items():
+    OP_TEMPLATES[_op] = (lambda base, ts: (lambda: base() + [t % sp for t in ts for sp in _SPECIAL]))(OP_TEMPLATES[_op], _ts)
+
